@@ -170,6 +170,14 @@ def main(rep):
             validated += v2
             for c in wcases:
                 nontrivial.add(c[1])
+        # "never modifies or removes a watched file" also when a call fails: every call of the passes over a file, a
+        # history file, a project and a taken name fails in turn; the call log and the watched tree are judged
+        fcases = wk.enumerate_cases(exe_impl, rep.tier, "fault", rep.seed,
+                                    only=["drain_one", "drain_history_offset", "drain_project", "drain_collision", "accept_project"] if rep.tier == "quick" else None)
+        if not found:
+            f3, v3 = wk.run_cases(rep, exe_impl, exe_model, fcases, ["confined"], what="confinement under a failing call")
+            found = found or f3
+            validated += v3
         # "relative to the common parent of the watch roots": the real main() with one, two and three roots (equal,
         # nested, siblings, unrelated, in every order) must hand the handler the offset of the deepest directory that
         # contains ALL of them
@@ -204,13 +212,13 @@ def main(rep):
                                           "what": "implementation and model differ on main() with roots %s" % wroots})
                     continue
                 validated += 1
-        rep.cov["evaluations"] = len(pc) + len(wcases) + len(mcases)
+        rep.cov["evaluations"] = len(pc) + len(wcases) + len(mcases) + len(fcases)
         rep.cov["distinct_nontrivial"] = len(nontrivial)
         rep.cov["traces_validated_against_impl"] = validated
         rep.cov["input_distribution"] = {"names_exhaustive_and_random": sum(1 for c in pc if c[2][0] == "ext"),
-                                         "store_paths": sum(1 for c in pc if c[2][0] == "sp"), "world_histories": len(wcases), "watch_root_tuples": len(mcases)}
+                                         "store_paths": sum(1 for c in pc if c[2][0] == "sp"), "world_histories": len(wcases), "watch_root_tuples": len(mcases), "single_faults": len(fcases)}
         rep.cov["rule"] = ("extension: every name over {a,b,.,/} up to length %d plus random names; store paths with 0..1234 collisions; "
-                           "common parent: every tuple of 1-3 watch roots over {/, /a, /a/b, /a/c, /d, /a/b/c} through the real main(); "
+                           "every single failing call of the passes over a file / history file / project / taken name (call log and watched tree judged); common parent: every tuple of 1-3 watch roots over {/, /a, /a/b, /a/c, /d, /a/b/c} through the real main(); "
                            "file names with blanks, a literal ' (deleted)' suffix, tildes, tabs; confinement: random handler histories (files, history paths, projects, deletions, reloads, restarts) with the call log of every "
                            "operation checked against the configured locations and the watched tree compared before/after each timeout pass; every new version must sit at "
                            "store_root/<relative path>/<version>[-k]<extension> of a file whose write was accepted and equal its source; "
